@@ -11,7 +11,49 @@ def main():
     import numpy as np
     np.random.seed(spec.get("np_seed", 0))
     random.seed(spec.get("py_seed", 0))
-    if spec["what"] == "scheduler":
+    if spec["what"] == "pasha_ties":
+        # PASHA on tie-heavy learning curves (values from a small discrete set): sequential trials, each run until the
+        # scheduler pauses / stops it; the trace of all suggestions and decisions is the output
+        import datetime
+        from syne_tune.backend.trial_status import Trial
+        from syne_tune.config_space import uniform
+        from syne_tune.optimizer.schedulers import HyperbandScheduler
+        levels = [0.1, 0.13, 0.2, 0.35, 0.5, 0.51, 0.7, 0.9]
+        max_epochs = 16
+        out = []
+        for ds in range(spec["n"]):
+            table = np.random.RandomState(ds).choice(levels, size=(200, max_epochs + 1))
+            cs = {"x": uniform(0, 1), "epochs": max_epochs}
+            s = HyperbandScheduler(cs, searcher="random", type="pasha", metric="loss", mode="min", resource_attr="epoch",
+                                   max_resource_attr="epochs", grace_period=1, reduction_factor=2, random_seed=spec["seed"],
+                                   search_options={"debug_log": False})
+            trace, trials, res, nid = [], {}, {}, 0
+            for _ in range(spec["suggests"]):
+                sg = s.suggest(nid)
+                if sg is None:
+                    break
+                if sg.spawn_new_trial_id:
+                    tid = nid
+                    nid += 1
+                    trials[tid] = Trial(trial_id=tid, config=sg.config, creation_time=datetime.datetime(2024, 1, 1))
+                    res[tid] = 0
+                    trace.append(["start", tid])
+                    s.on_trial_add(trials[tid])
+                else:
+                    tid = sg.checkpoint_trial_id
+                    trace.append(["resume", tid])
+                while res[tid] < max_epochs:
+                    res[tid] += 1
+                    d = s.on_trial_result(trials[tid], {"loss": float(table[tid, res[tid]]), "epoch": res[tid]})
+                    trace.append(["result", tid, res[tid], d])
+                    if d != "CONTINUE":
+                        s.on_trial_remove(trials[tid])
+                        break
+                if res[tid] >= max_epochs and d == "CONTINUE":
+                    s.on_trial_complete(trials[tid], {"loss": float(table[tid, max_epochs]), "epoch": max_epochs})
+            out.append(trace)
+        print("@@OUT@@" + json.dumps(out))
+    elif spec["what"] == "scheduler":
         from harness.drivers import searcher as DS
         ep = DS.Episode(spec["kind"], spec["space"], spec.get("p2e"), spec["seed"])
         for i, step in enumerate(spec["history"]):
